@@ -20,7 +20,7 @@ func newCSMFromFields(prev time.Time, fields []*cronField) *CSM.CronStateMachine
 	} else {
 		day = CSM.NewMonthDayNode(prev.Day(), 1, 31, fields[3].n, fields[3].values, month, year)
 	}
-	hour := CSM.NewCommonNode(prev.Hour(), 0, 59, fields[2].values)
+	hour := CSM.NewCommonNode(prev.Hour(), 0, 23, fields[2].values)
 	minute := CSM.NewCommonNode(prev.Minute(), 0, 59, fields[1].values)
 	second := CSM.NewCommonNode(prev.Second(), 0, 59, fields[0].values)
 
